@@ -207,6 +207,12 @@ def run(chk):
                    isinstance(ax, ast.Constant) and ax.value in (1, -1), derived="axis=%s" % (ast.unparse(ax) if ax is not None else None), loc=fe_.loc(n),
                    inconclusive=ax is None)
     sibling_defaults(chk, "R-ENERGY", ["eqsig.sdof.calc_input_energy_spectrum"], neutral={"series": False}, label="calc_input_energy_spectrum")
+    from ..tyob import leading_zero_tests
+    _fi = chk.P.fn("eqsig.sdof.pseudo_response_spectra")
+    leading_zero_tests(chk, "R-PSEUDO", _fi, "periods", "eqsig/sdof.py:pseudo_response_spectra", what="a leading zero period", minimum=0)
+    _fi = chk.P.fn(ACC + ".gen_response_spectrum")
+    leading_zero_tests(chk, "R-PAIR", _fi, "self.response_times", "eqsig/single.py:AccSignal.gen_response_spectrum", what="a leading zero period",
+                       minimum=0)
     chk.floor("R-SRC", 16)
     chk.floor("R-PSEUDO", 7)
     chk.floor("R-CUT", 12)
